@@ -14,6 +14,8 @@ import (
 	replicationv1 "go.temporal.io/server/api/replication/v1"
 	"go.temporal.io/server/client/history"
 	servercommon "go.temporal.io/server/common"
+	"go.temporal.io/server/common/channel"
+	"go.temporal.io/server/common/log"
 	"google.golang.org/grpc/codes"
 	"google.golang.org/grpc/metadata"
 	"google.golang.org/grpc/status"
@@ -44,6 +46,7 @@ type RouteProfile struct {
 	Liveness    bool // judge the C03 liveness tail
 	CheckC02End bool // exactly-once / conservation at the end (no-failure profiles only)
 	Cleanup     bool // judge the C08 end-of-run cleanup
+	CheckC05    bool // in-system ack translation oracle (no-failure profiles)
 }
 
 // RouteConfig is the per-run configuration, drawn from the tape first.
@@ -108,8 +111,21 @@ type tgtConn struct {
 	handlerErr  error
 	lastAckAt   time.Duration
 	everAcked   bool
+	sentTasks   []*tgtTask  // every task the proxy has put on this stream (OnS2C), received by the target or not
+	ackTracked  []int       // len(tracked) at the emission of each ack, in order
+	rounds      []*ackRound // C05: translations the proxy made for each ack it read on this stream
 	diedAt      int // decision at which the stream was first seen dead (0 = alive)
 	endedAt     int // decision at which the proxy's handler for the stream was seen to have returned
+}
+
+// ackRound is one SyncReplicationState read by the proxy on a target stream and the
+// per-source translations it produced (observed at ShardManager.DeliverAckToShardOwner).
+type ackRound struct {
+	w         int64
+	prevW     int64
+	nTracked  int // number of tasks the target had accepted when it emitted this ack
+	delivered map[ShardID]int64
+	checked   bool
 }
 
 type shardModel struct {
@@ -121,6 +137,7 @@ type shardModel struct {
 	ackLevel int64
 	src      *srcConn
 	srcIncs  int
+	wmHighs  map[int64]bool // every exclusive high this shard ever sent as source (any message kind)
 	// target role
 	tgt     *tgtConn
 	tgtIncs int
@@ -252,6 +269,10 @@ func NewRouteWorld(s *simrt.Sim, prof RouteProfile) *RouteWorld {
 	loggers := noopLoggers{}
 	w.sm = proxy.NewShardManager(nil, scc, encryption.TLSConfig{}, loggers)
 	_ = w.sm.Start(w.lifetime)
+	var smForServers proxy.ShardManager = w.sm
+	if prof.CheckC05 {
+		smForServers = recSM{ShardManager: w.sm, w: w}
+	}
 	toA := &adminClient{name: "toA", open: func(ctx context.Context) (adminservice.AdminService_StreamWorkflowReplicationMessagesClient, error) {
 		return w.openSource(clusterA, ctx)
 	}}
@@ -264,12 +285,12 @@ func NewRouteWorld(s *simrt.Sim, prof RouteProfile) *RouteWorld {
 	w.outbound = proxy.NewAdminServiceProxyServer("outboundAdminService", toB, toA, proxy.AdminServiceOverrides{},
 		[]string{"outbound"}, w.observerA.ReportStreamValue, scc, proxy.LCMParameters{},
 		proxy.RoutingParameters{OverrideShardCount: scc.LocalShardCount, RoutingLocalShardCount: scc.RemoteShardCount, DirectionLabel: "outbound"},
-		loggers, w.sm, w.lifetime)
+		loggers, smForServers, w.lifetime)
 	// inbound server: serves the remote cluster B; adminClient -> A, reverse -> B
 	w.inbound = proxy.NewAdminServiceProxyServer("inboundAdminService", toA, toB, proxy.AdminServiceOverrides{},
 		[]string{"inbound"}, w.observerB.ReportStreamValue, scc, proxy.LCMParameters{},
 		proxy.RoutingParameters{OverrideShardCount: scc.RemoteShardCount, RoutingLocalShardCount: scc.LocalShardCount, DirectionLabel: "inbound"},
-		loggers, w.sm, w.lifetime)
+		loggers, smForServers, w.lifetime)
 	for cl := clusterA; cl <= clusterB; cl++ {
 		for i := 1; i <= w.count(cl); i++ {
 			w.shards[cl] = append(w.shards[cl], &shardModel{cluster: cl, id: int32(i), nextID: 10, ackLevel: 0})
@@ -433,6 +454,10 @@ func (w *RouteWorld) srcSend(c *srcConn, forceWatermark bool) {
 	}
 	c.lastHighSent = msgs.ExclusiveHighWatermark
 	c.lastWmAt = w.s.Now()
+	if c.sh.wmHighs == nil {
+		c.sh.wmHighs = map[int64]bool{}
+	}
+	c.sh.wmHighs[msgs.ExclusiveHighWatermark] = true
 	ids := []int64{}
 	for _, t := range msgs.ReplicationTasks {
 		ids = append(ids, t.SourceTaskId)
@@ -568,6 +593,35 @@ func (w *RouteWorld) tgtOpen(sh *shardModel) {
 	if sh.cluster == clusterB {
 		srv = w.inbound
 	}
+	st.OnS2C = func(m *simio.Res) {
+		if msgs := m.GetMessages(); msgs != nil {
+			for _, t := range msgs.ReplicationTasks {
+				tt := &tgtTask{proxyID: t.SourceTaskId}
+				if t.RawTaskInfo != nil {
+					tt.key, _ = parseMarker(t.RawTaskInfo.RunId)
+				}
+				c.sentTasks = append(c.sentTasks, tt)
+			}
+		}
+	}
+	st.OnDeliverC2S = func(r *simio.Req) {
+		if ss := r.GetSyncReplicationState(); ss != nil {
+			w.s.Log("proxy reads ack %d on %s", ss.InclusiveLowWatermark, c.st.Name)
+			prev := int64(0)
+			if n := len(c.rounds); n > 0 {
+				w.checkRound(c, c.rounds[n-1])
+				prev = c.rounds[n-1].w
+				if c.rounds[n-1].prevW > prev {
+					prev = c.rounds[n-1].prevW
+				}
+			}
+			nt := len(c.tracked)
+			if idx := len(c.rounds); idx < len(c.ackTracked) {
+				nt = c.ackTracked[idx]
+			}
+			c.rounds = append(c.rounds, &ackRound{w: ss.InclusiveLowWatermark, prevW: prev, nTracked: nt, delivered: map[ShardID]int64{}})
+		}
+	}
 	w.s.Log("target %s opens stream %s", sh.name(), st.Name)
 	w.s.Spawn("handler:"+st.Name, func() {
 		err := srv.StreamWorkflowReplicationMessages(simio.ServerEnd{S: st})
@@ -696,6 +750,7 @@ func (w *RouteWorld) tgtAck(c *tgtConn) {
 		return
 	}
 	c.acksEmitted = append(c.acksEmitted, low)
+	c.ackTracked = append(c.ackTracked, len(c.tracked))
 	c.lastAckAt = w.s.Now()
 	c.everAcked = true
 	for _, t := range c.tracked {
@@ -913,6 +968,14 @@ func (w *RouteWorld) tailStatus() string {
 
 // endChecks runs the end-of-run oracles of the no-failure profiles (C02 conservation).
 func (w *RouteWorld) endChecks() {
+	for _, sh := range w.allShards() {
+		for _, c := range sh.allTgt {
+			// the tail is quiescent: the proxy has finished processing the last ack it read
+			for _, r := range c.rounds {
+				w.checkRoundPhase(c, r, true)
+			}
+		}
+	}
 	if !w.prof.CheckC02End || w.anyFault {
 		return
 	}
@@ -972,6 +1035,119 @@ func (w *RouteWorld) cleanupChecks(live []string) {
 	}
 	if len(live) > 0 {
 		w.violate("C08", "stuck-worker", "tasks still alive after all streams ended and the lifetime was cancelled: %v", live)
+	}
+}
+
+// recSM decorates the real ShardManager (it is an interface) to observe ack translations.
+type recSM struct {
+	proxy.ShardManager
+	w *RouteWorld
+}
+
+func (r recSM) DeliverAckToShardOwner(src ShardID, ra *proxy.RoutedAck, sc channel.ShutdownOnce, lg log.Logger, ack int64, fwd bool) bool {
+	ok := r.ShardManager.DeliverAckToShardOwner(src, ra, sc, lg, ack, fwd)
+	r.w.s.Log("translate: stream of %s -> source %s value %d delivered=%v", sidStr(ra.TargetShard), sidStr(src), ack, ok)
+	if ok {
+		if tsh := r.w.shard(ra.TargetShard); tsh != nil && tsh.tgt != nil {
+			if n := len(tsh.tgt.rounds); n > 0 {
+				tsh.tgt.rounds[n-1].delivered[src] = ack
+			}
+		}
+	}
+	return ok
+}
+
+// checkRound: C05 in-system. For the ack at proxy watermark w on stream c, every source
+// with an outstanding task entry at a proxy id in (prevW, w] must have been told a value
+// >= the largest original id among those entries, and every value told must be an
+// original id of that source's entries <= w on this stream or a high watermark that
+// source has sent (synthetic watermark entries are invisible from outside), or repeat
+// the previous value (documented fallback when nothing new is covered).
+func (w *RouteWorld) checkRound(c *tgtConn, r *ackRound) {
+	w.checkRoundPhase(c, r, false)
+}
+
+// checkRoundPhase: the "required" half runs as soon as the proxy has finished the round;
+// the "allowed" half runs at the quiescent end of the run, when every entry the proxy ever
+// appended has also been put on the stream (an entry appended but not yet sent is invisible).
+func (w *RouteWorld) checkRoundPhase(c *tgtConn, r *ackRound, final bool) {
+	if !w.prof.CheckC05 || w.anyFault {
+		return
+	}
+	if !final && r.checked {
+		return
+	}
+	// a round that was never closed by a following ack may still be in progress inside the
+	// proxy (e.g. blocked on a full ack queue): its "required" half cannot be judged
+	first := !r.checked && !final
+	r.checked = true
+	if len(c.sh.allTgt) != 1 {
+		return
+	}
+	need := map[ShardID]int64{}
+	own := map[ShardID]map[int64]bool{}
+	// allowed values: anything the proxy has put on the stream at a proxy id <= w by now
+	// (an entry is appended before it is sent, so this is a superset of what the table held)
+	for _, t := range c.sentTasks {
+		if t.key == (taskKey{}) || t.proxyID > r.w {
+			continue
+		}
+		if own[t.key.src] == nil {
+			own[t.key.src] = map[int64]bool{}
+		}
+		own[t.key.src][t.key.id] = true
+	}
+	// required: what the target had accepted when it emitted the ack
+	for i, t := range c.tracked {
+		if i >= r.nTracked || t.key == (taskKey{}) || t.proxyID > r.w {
+			continue
+		}
+		if t.proxyID > r.prevW {
+			if cur, ok := need[t.key.src]; !ok || t.key.id > cur {
+				need[t.key.src] = t.key.id
+			}
+		}
+	}
+	prevVals := map[ShardID]int64{}
+	for _, pr := range c.rounds {
+		if pr == r {
+			break
+		}
+		for s, v := range pr.delivered {
+			prevVals[s] = v
+		}
+	}
+	if !first {
+		need = nil
+	}
+	for src, m := range need {
+		v, ok := r.delivered[src]
+		if !ok {
+			hist := ""
+			for _, pr := range c.rounds {
+				hist += fmt.Sprintf("[w=%d prev=%d n=%d %v]", pr.w, pr.prevW, pr.nTracked, pr.delivered)
+			}
+			w.violate("C05", "missing-translation", "ack %d on %s covers task %d of source %s (proxy ids in (%d,%d]) but nothing was translated for that source (translated: %v) rounds=%s emitted=%v", r.w, c.st.Name, m, sidStr(src), r.prevW, r.w, r.delivered, hist, c.acksEmitted)
+		} else if v < m {
+			w.violate("C05", "low-translation", "ack %d on %s translated to %d for source %s, but its largest covered original id is %d", r.w, c.st.Name, v, sidStr(src), m)
+		}
+	}
+	if !final {
+		return
+	}
+	for src, v := range r.delivered {
+		ssh := w.shard(src)
+		if ssh == nil {
+			w.violate("C05", "foreign-translation", "ack %d on %s translated for unknown source %s", r.w, c.st.Name, sidStr(src))
+			continue
+		}
+		if own[src][v] || ssh.wmHighs[v] {
+			continue
+		}
+		if pv, ok := prevVals[src]; ok && pv == v {
+			continue
+		}
+		w.violate("C05", "foreign-translation", "ack %d on %s translated to %d for source %s, which is neither an original id of that source at a proxy id <= %d on this stream nor a watermark it sent", r.w, c.st.Name, v, sidStr(src), r.w)
 	}
 }
 
